@@ -26,6 +26,13 @@ type pop struct {
 	val  int64
 	n    int // slice Append: number of items (values val, val+1, ...)
 	pre  int // runtime.Gosched() calls before the operation (seeded perturbation)
+	// slice Append: shape of the caller-owned argument slice. The items are cut
+	// out of the goroutine's re-used buffer at offset off with spare extra
+	// capacity; after the call the caller may overwrite the argument (scribble),
+	// append to it (callerApp: writes into the spare capacity) and hand the same
+	// slice to a second Slice instance (shared).
+	off, spare                  int
+	scribble, callerApp, shared bool
 }
 
 // prog is one seeded concurrent program: a sequential prefix run by the
@@ -35,7 +42,8 @@ type prog struct {
 	nKeys  int
 	prefix []pop
 	gor    [][]pop
-	rounds bool // lock-step rounds: operation i of every goroutine starts behind a common barrier
+	post   []pop // observers run by the harness goroutine after all clients are done
+	rounds bool  // lock-step rounds: operation i of every goroutine starts behind a common barrier
 }
 
 const maxKeys = 3
@@ -111,7 +119,17 @@ func (p *prog) String() string {
 			switch {
 			case p.kind == "slice":
 				if o.kind == sAppend {
-					fmt.Fprintf(&sb, "(%d@%d)", o.n, o.val)
+					fmt.Fprintf(&sb, "(%d@%d buf[%d:+%d:+%d]", o.n, o.val, o.off, o.n, o.spare)
+					if o.scribble {
+						sb.WriteString(" scribble")
+					}
+					if o.callerApp {
+						sb.WriteString(" caller-append")
+					}
+					if o.shared {
+						sb.WriteString(" shared")
+					}
+					sb.WriteByte(')')
 				}
 			case p.kind == "map" && o.kind == mStore:
 				fmt.Fprintf(&sb, "(%s,%d)", keyNames[o.key], o.val)
@@ -132,6 +150,7 @@ func (p *prog) String() string {
 	for g, ops := range p.gor {
 		w(fmt.Sprintf("g%d", g), ops)
 	}
+	w("post", p.post)
 	return sb.String()
 }
 
@@ -215,6 +234,11 @@ func genProg(kind string, rng *mon.RNG) *prog {
 			if o.kind == sAppend {
 				o.n = pickW(rng, []int{1, 6, 3, 1})
 				o.val = uniq(o.n)
+				o.off = rng.Intn(4)
+				o.spare = rng.Intn(9)
+				o.scribble = rng.Chance(3, 4)
+				o.callerApp = rng.Chance(1, 2)
+				o.shared = rng.Chance(1, 4)
 			}
 		}
 		return o
@@ -248,6 +272,15 @@ func genProg(kind string, rng *mon.RNG) *prog {
 			ops = append(ops, mk(&has, -1, 0))
 		}
 		p.gor = append(p.gor, ops)
+	}
+	// final observers: what the container reports once everything is quiet
+	switch kind {
+	case "map":
+		p.post = []pop{{kind: mRange}, {kind: mLen}}
+	case "atomic":
+		p.post = []pop{{kind: aForEach}}
+	default:
+		p.post = []pop{{kind: sSlice}, {kind: sLen}}
 	}
 	return p
 }
@@ -391,6 +424,11 @@ func (pl *pool) run(batch []*job) {
 	for w := 0; w < poolSize; w++ {
 		<-pl.done
 	}
+	for _, j := range batch {
+		for _, op := range j.p.post {
+			j.do(j.nG, op)
+		}
+	}
 }
 
 // spinBounded waits until a >= need or the spin budget is used up, without
@@ -470,7 +508,7 @@ func newSUT(kind string) sut {
 	case "atomic":
 		return &atomSUT{a: cmap.NewAtomic[string, int64]()}
 	}
-	return &sliceSUT{s: kslice.New[int64]()}
+	return &sliceSUT{s: kslice.New[int64](), s2: kslice.New[int64]()}
 }
 
 func runLinGroup(idx int, g group) {
@@ -524,8 +562,15 @@ func runLinGroup(idx int, g group) {
 				}
 				rp["longest_partial_linearization_(history_line_numbers_from_0)"] = best
 			}
-			rec.Violation(idx, "lin/"+g.kind+"/not-linearizable",
-				fmt.Sprintf("no sequential %s history respecting real-time order explains the recorded returns (%d ops, %d overlapping pairs)", g.kind, len(h), ov), rp)
+			sig, what := "lin/"+g.kind+"/not-linearizable", ""
+			if bad := malformed(h); bad != "" {
+				sig, what = "lin/"+g.kind+"/malformed-reply", "; a reply is impossible for any state: "+bad
+				if g.kind == "slice" {
+					sig = "lin/slice/value-never-appended"
+				}
+			}
+			rec.Violation(idx, sig,
+				fmt.Sprintf("no sequential %s history respecting real-time order explains the recorded returns (%d ops, %d overlapping pairs)%s", g.kind, len(h), ov, what), rp)
 			continue
 		}
 		ls.hist++
@@ -534,9 +579,23 @@ func runLinGroup(idx int, g group) {
 		if ov > 0 {
 			ls.overlapping++
 		}
-		for _, ops := range append([][]pop{p.prefix}, p.gor...) {
+		for _, ops := range append([][]pop{p.prefix, p.post}, p.gor...) {
 			for _, o := range ops {
 				ls.opKinds[opName(g.kind, o.kind)]++
+				if g.kind == "slice" && o.kind == sAppend {
+					if o.scribble {
+						ls.opKinds["Append.arg_overwritten_after_call"]++
+					}
+					if o.callerApp && o.spare > 0 {
+						ls.opKinds["Append.arg_appended_to_by_caller"]++
+					}
+					if o.shared {
+						ls.opKinds["Append.arg_shared_with_second_instance"]++
+					}
+					if o.spare > 0 {
+						ls.opKinds["Append.arg_with_spare_capacity"]++
+					}
+				}
 			}
 		}
 		rec.Case(idx, text, ov > 0)
@@ -544,6 +603,28 @@ func runLinGroup(idx int, g group) {
 			rec.Sample(map[string]any{"structure": g.kind, "program": text, "history": historyLines(s, j.nG, h), "overlapping_pairs": ov, "verdict": "linearizable"})
 		}
 	}
+}
+
+// malformed returns the first reply of h that no state of the model could
+// produce (foreign or duplicate key, a value that was never written).
+func malformed(h []rawOp) string {
+	for _, r := range h {
+		switch o := r.out.(type) {
+		case mapOut:
+			if o.bad != "" {
+				return o.bad
+			}
+		case atomOut:
+			if o.bad != "" {
+				return o.bad
+			}
+		case sliceOut:
+			if o.bad != "" {
+				return o.bad
+			}
+		}
+	}
+	return ""
 }
 
 // ---------------------------------------------------------------- cmap.Map
@@ -968,18 +1049,40 @@ type sliceOut struct {
 	bad  string
 }
 
-type sliceSUT struct{ s kslice.Slice[int64] }
+// sliceSUT: s is the instance under test; s2 is a second instance that is fed
+// some of the same argument slices (not judged itself: it exists so that a
+// container that keeps its argument would share memory with another one).
+type sliceSUT struct {
+	s, s2 kslice.Slice[int64]
+	bufs  [poolSize + 1][]int64 // per goroutine slot: the caller's re-used buffer
+}
+
+const sliceBufLen = 3 + 3 + 8 + 1 // max offset + max items + max spare + one guard element
 
 func (s *sliceSUT) fork(int) {}
 
 func (s *sliceSUT) finish([]rawOp) string { return "" }
 
-func (s *sliceSUT) exec(_ int, op pop) (any, any) {
+// garbage values are negative, so they can never be mistaken for an appended
+// value (those are 1..255).
+const garbage = -1000
+
+func (s *sliceSUT) exec(g int, op pop) (any, any) {
 	in := sliceIn{op: op.kind}
 	var o sliceOut
 	switch op.kind {
 	case sAppend:
-		items := make([]int64, op.n)
+		// caller-owned argument: a window of the goroutine's re-used buffer with
+		// op.spare elements of extra capacity, everything around it garbage
+		buf := s.bufs[g]
+		if buf == nil {
+			buf = make([]int64, sliceBufLen)
+			s.bufs[g] = buf
+		}
+		for i := range buf {
+			buf[i] = garbage - int64(i)
+		}
+		items := buf[op.off : op.off+op.n : op.off+op.n+op.spare]
 		b := make([]byte, op.n)
 		for i := range items {
 			items[i] = op.val + int64(i)
@@ -987,6 +1090,20 @@ func (s *sliceSUT) exec(_ int, op pop) (any, any) {
 		}
 		in.items = string(b)
 		o.n = s.s.Append(items...)
+		// the arguments were the caller's: what it does with them afterwards is
+		// none of the container's business
+		if op.shared {
+			s.s2.Append(items...)
+		}
+		if op.scribble {
+			for i := range items {
+				items[i] = garbage - 100 - int64(i)
+			}
+		}
+		if op.callerApp {
+			x := append(items, garbage-200) // in place while there is spare capacity
+			_ = append(x, garbage-201)
+		}
 	case sLen:
 		o.n = s.s.Len()
 	case sSlice:
@@ -994,7 +1111,7 @@ func (s *sliceSUT) exec(_ int, op pop) (any, any) {
 		b := make([]byte, len(got))
 		for i, v := range got {
 			if v <= 0 || v > 255 {
-				o.bad = fmt.Sprintf("value %d was never appended", v)
+				o.bad = fmt.Sprintf("Slice()[%d] = %d was never appended", i, v)
 			}
 			b[i] = byte(v)
 		}
